@@ -227,6 +227,9 @@ TRANSPARENT = {"ImplicitCastExpr", "ParenExpr", "ExprWithCleanups", "Materialize
                "CXXBindTemporaryExpr", "ConstantExpr", "CXXDefaultArgExpr"}
 
 
+TAG_GETTERS = ("Variant::getType", "Xml::Variant::getType")
+
+
 class Function:
     def __init__(self, d, prog):
         self.d = d
@@ -405,6 +408,9 @@ class Function:
             s = "%s[%s]" % (R(c[0]), R(c[1]))
         elif k == "CXXMemberCallExpr":
             s = "%s(%s)" % (R(c[0]), ", ".join(R(x) for x in c[1:]))
+            if len(c) == 1 and n.get("callee") in TAG_GETTERS and s.endswith("getType()"):
+                # the tag accessor reads as the tag it returns (rule C07.j / C16 decide that it does): `other.getType()` is `other.data->type`
+                s = s[:-len("getType()")] + "data->type"
         elif k == "CXXOperatorCallExpr":
             op = n.get("oop", "?")
             args = c[1:]
